@@ -97,6 +97,11 @@ def handleC17 (cmd : String) (args : List Sexp) : Option Sexp :=
       match r with
       | .error e => pure (C02D.errSexp e)
       | .ok r => pure (tagged "ok" [C17D.stSexp r])
+  | "c17.temp", [.atom name, c, .list (.atom "edits" :: es), s] => do
+      let c ← C17D.call? c; let s ← C17D.st? s; let es ← es.mapM C17D.edit?
+      match withTempBlock name c es s with
+      | .error e => pure (C02D.errSexp e)
+      | .ok r => pure (tagged "ok" [C17D.stSexp r])
   | "c17.bind", [.atom name, c, .atom locked, out, y] => do
       let c ← C17D.call? c; let out ← C17D.binds? out; let y ← C17D.binds? y
       match exitBinds name c (locked == "true") out y with
